@@ -240,13 +240,13 @@ def Inner.predict (A : Arith) (i : Inner) (h : Mat) : Nat × Nat :=
   let u := Mat.mul A (Mat.mul A h i.unc) h.transpose
   (p.entry 0 0, u.entry 0 0)
 
-/-- `absorb_measurement`: skipped when the innovation covariance has no positive finite inverse -/
+/-- `absorb_measurement`: skipped when the innovation covariance has no finite inverse -/
 def Inner.absorbMeas (A : Arith) (i : Inner) (z : Nat) (h : Mat) (r : Nat) : Inner :=
   let (pred, u) := i.predict A h
   let diff := A.sub z pred
   let cov := A.add u r
   let weight := A.div cOne cov
-  if f64Lt cZero weight && f64IsFinite weight then
+  if f64IsFinite weight then
     let k := Mat.mul A (Mat.mul A i.unc h.transpose) [[weight]]
     let st := (Mat.add A (vec i.state) (Mat.mul A k [[diff]])).col 0
     let unc := Mat.symmetrize A (Mat.mul A (Mat.sub A unit3 (Mat.mul A k h)) i.unc)
